@@ -218,7 +218,7 @@ def main(argv=None) -> int:
                     lines.append(f"  lemma={r['label']} clause={c['clause']} inputs={c['inputs']} preds={c['preds']} info={c['info']}")
                     rc = max(rc, 1) if rc != 2 else rc
                 else:
-                    lines.append(f"  NON-REPRODUCING counterexample (harness/engine problem): clause={c['clause']} inputs={c['inputs']} {c['detail']}")
+                    lines.append(f"  NON-REPRODUCING counterexample (harness/engine problem): clause={c['clause']} inputs={c['inputs']} {c['detail']} info={c['info']}")
             for d in r["divergences"]:
                 lines.append(f"  ENGINE-DIVERGENCE: {d}")
             for d in r["inconclusive"][:5]:
